@@ -25,6 +25,17 @@ CLAIMED = {
         design_ref="DESIGN.md section 5 C17",
         note="Trusted: TLC, adapter projection (lower-cases and whitespace-normalises query texts). 'all' mixed with feature "
              "queries and out-of-range indexes are not generated (property silent). Two known findings (item assignment)."),
+    "C14": dict(
+        technique="TLA+ contract F(contents) (ProfilesContract) + algorithm-layer model of the macro cache (Profiles.tla) checked "
+                  "by TLC (HistoryFree, with a deviation switch reproducing the stale-cache defects); TLC-generated tour and walks "
+                  "replayed on a fresh Profiles registry; TLC trace monitor compares the probe verdict vector with F(observed contents)",
+        text="Bounded exhaustive over registry histories: all explored (contents, macro-cache) states x every enabled registry "
+             "operation with four custom profiles that shadow a general macro, a macro of a built-in profile, and introduce a new "
+             "one; after every step 26 probe verdicts identify the macro version each property is compiled with and TLC checks "
+             "they equal F(contents), knownNames/propertiesByProfile too, validate == validateWithProfile.valid under every "
+             "defaultProfiles assignment, unknown removal rejected.",
+        design_ref="DESIGN.md section 5 C14",
+        note="Trusted: TLC, the adapter's probe battery (literal-string macro bodies). Regex semantics themselves are C13's subject."),
 }
 PENDING = "check not built yet in this round (see DESIGN.md section 10 build order); no claim is made"
 NOT_APPLICABLE = {}
